@@ -8,3 +8,5 @@ import XPathV.Theorems.C01
 #print axioms XPathV.Theorems.C01.sibling_walks
 #print axioms XPathV.Theorems.C01.following_walk
 #print axioms XPathV.Theorems.C01.preceding_walk
+#print axioms XPathV.Theorems.C01.C01_main
+#print axioms XPathV.Theorems.C01.C01_single_step
